@@ -11,7 +11,7 @@ from typing import Dict, List, Optional, Set, Tuple
 
 from ..fa import FA, fa_of
 from ..model import AnalysisError, FuncInfo, Program
-from ..sym import Poly, Term, leaves, show, term_to_poly
+from ..sym import Poly, Term, contains, leaves, show, term_to_poly
 
 FILE = "kappadata/samplers/interleaved_sampler.py"
 
@@ -62,6 +62,15 @@ class Roles:
                 self.cfg_iter, self.cfg_next, self.cfg_loop = n, nxt, loop
                 if isinstance(loop.target, ast.Name):
                     self.cfg_var = loop.target.id
+            elif contains(it, ("self", "configs")) and not (it[0] == "attr" and it[2] == "sampler"):
+                # some other traversal of self.configs (reversed, sorted, sliced ...): the config loop, in an
+                # order the properties' rules then judge
+                self.cfg_iter, self.cfg_next, self.cfg_loop = n, nxt, loop
+                tg = loop.target
+                if isinstance(tg, ast.Tuple) and len(tg.elts) == 2 and all(isinstance(e, ast.Name) for e in tg.elts):
+                    self.cfg_idx_var, self.cfg_var = tg.elts[0].id, tg.elts[1].id
+                elif isinstance(tg, ast.Name):
+                    self.cfg_var = tg.id
             elif it[0] == "attr" and it[2] == "sampler" and isinstance(loop.target, ast.Name):
                 self.passes.append(PassLoop(n, nxt, loop, it[1], loop.target.id))
         # yields
@@ -86,12 +95,34 @@ class Roles:
 
     # ---- helpers ------------------------------------------------------------------------------------
     def counter_from(self, start_attr: str) -> Optional[str]:
-        """Local initialised from self.<start_attr>."""
-        for n in self.fa.cfg.nodes:
-            for var, tgt, val in self.fa.cfg.defs_at(n):
-                if val is not None and "." not in var and self.fa.sym.term(val, n) == ("self", start_attr):
-                    return var
+        """The progress counter of that unit: the local initialised from self.<start_attr> that is
+        also *incremented* somewhere (other locals may legitimately start from the same checkpoint
+        value, e.g. the 'sample counter at the last update' bookkeeping)."""
+        cands = self.locals_from(start_attr)
+        counting = [v for v in cands if any(c is not None and c > 0 for _, c in self.increments(v))]
+        if len(counting) == 1:
+            return counting[0]
         return None
+
+    def snapshots_of(self, counter: str) -> List[str]:
+        """Locals that somewhere take a copy of the given counter (``last = counter``)."""
+        out = []
+        for n in sorted(self.fa.cfg.nodes):
+            for var, tgt, val in self.fa.cfg.defs_at(n):
+                if val is not None and "." not in var and var != counter and var not in out:
+                    t = self.fa.sym.term(val, n)
+                    if t[0] == "var" and t[1] == counter:
+                        out.append(var)
+        return out
+
+    def locals_from(self, start_attr: str) -> List[str]:
+        out = []
+        for n in sorted(self.fa.cfg.nodes):
+            for var, tgt, val in self.fa.cfg.defs_at(n):
+                if val is not None and "." not in var and self.fa.sym.term(val, n) == ("self", start_attr) \
+                        and var not in out:
+                    out.append(var)
+        return out
 
     def defs_of(self, var: str) -> List[Tuple[int, Optional[ast.AST], ast.AST]]:
         out = []
@@ -138,6 +169,32 @@ class Roles:
         if src == dst:
             return False
         return not cfg.reachable(src, dst, avoid=set(through) | {loop_next}, within=self.loop_body_nodes(loop_next))
+
+    def iteration_ends_through(self, loop_next: int, src: int, through: Set[int]) -> bool:
+        """Every path from src that ends the current iteration of the loop *normally* - by reaching the
+        loop's 'next' node or by leaving the loop body (break) - passes a node of ``through``.  Paths that
+        leave the function (return / raise) are exempt."""
+        cfg = self.fa.cfg
+        body = self.loop_body_nodes(loop_next)
+        if src in through:
+            return True
+        seen = {src}
+        stack = [src]
+        while stack:
+            n = stack.pop()
+            for m in cfg.g.successors(n):
+                if m in through:
+                    continue
+                if m == loop_next:
+                    return False
+                if m not in body:
+                    if m in (cfg.exit, cfg.raise_exit):
+                        continue
+                    return False
+                if m not in seen:
+                    seen.add(m)
+                    stack.append(m)
+        return True
 
     def same_iteration_path(self, loop_next: int, a: int, b: int) -> bool:
         """b can execute after a within one iteration of the loop."""
